@@ -14,8 +14,17 @@ def validate(module, cfg_text, traces, scratch, tag, *, env=None, timeout=3600, 
     if not traces:
         return rejects, accepted, results
     chunk = chunk or len(traces)
-    for c0 in range(0, len(traces), chunk):
-        part = traces[c0 : c0 + chunk]
+    # records that belong together (twin groups of the oracle lemmas: equal, contiguous "group") are never split
+    starts, c0 = [], 0
+    while c0 < len(traces):
+        c1 = min(len(traces), c0 + chunk)
+        while 0 < c1 < len(traces) and isinstance(traces[c1], dict) and traces[c1].get("group") is not None \
+                and isinstance(traces[c1 - 1], dict) and traces[c1 - 1].get("group") == traces[c1].get("group"):
+            c1 += 1
+        starts.append((c0, c1))
+        c0 = c1
+    for c0, c1 in starts:
+        part = traces[c0:c1]
         path = scratch.path(f"{tag}_{c0}.json")
         with open(path, "w") as f:
             json.dump(part, f)
